@@ -210,7 +210,8 @@ fn gen_scenario(seed: u64) -> Scenario {
                 let at = if mt || r.chance(4, 5) { None } else { Some(r.below(8) * 1000) };
                 script.push(Action { at, kind: ActionKind::Listen(ep) });
             }
-            machines[mi].apps.push(AppSpec { n, script });
+            let echo = r.chance(1, 2);
+            machines[mi].apps.push(AppSpec { n, script, echo });
         }
     }
     // routes (keyed by the sender's local address in this code base) and senders
@@ -589,8 +590,47 @@ fn analyse(sc: &Scenario, res: &RunResult, rep: &mut CaseReport) {
             }
         }
     }
+    // the session handed to the application carries the datagram's endpoints: an answer sent
+    // through it goes from (A, P) back to the true source
+    let mut expect_session: BTreeMap<usize, (Ep, Ep)> = BTreeMap::new();
+    for e in evs {
+        if let Ev::Demux { cause: Some(c), .. } = &e.ev {
+            let bytes = match &evs[*c].ev {
+                Ev::Wire { bytes, .. } | Ev::Inject { bytes, .. } => Some(bytes),
+                _ => None,
+            };
+            if let Some(Parsed::Datagram { src, dst, .. }) = bytes.map(|b| oracle_parse(b)) {
+                expect_session.insert(e.id, (dst, src));
+            }
+        }
+    }
+    let mut echo_seen: BTreeMap<usize, Vec<(Ep, Ep)>> = BTreeMap::new();
+    for e in evs {
+        if let Ev::Wire { to: None, target: Target::Ipv4, bytes, .. } = &e.ev {
+            if let Parsed::Datagram { src, dst, payload } = oracle_parse(bytes) {
+                if payload.len() == 8 && payload.starts_with(ECHO_TAG) {
+                    let id = u32::from_be_bytes([payload[4], payload[5], payload[6], payload[7]]) as usize;
+                    echo_seen.entry(id).or_default().push((src, dst));
+                }
+            }
+        }
+    }
     for e in evs {
         match &e.ev {
+            Ev::Echo { demux, result } => {
+                rep.count(format!("echo.{}", result));
+                if let Some((l, r)) = expect_session.get(demux) {
+                    if result == "ok" {
+                        let mut tag = ECHO_TAG.to_vec();
+                        tag.extend_from_slice(&(*demux as u32).to_be_bytes());
+                        *submitted.entry((*l, *r, tag)).or_insert(0) += 1;
+                        let seen = echo_seen.get(demux).cloned().unwrap_or_default();
+                        if seen != vec![(*l, *r)] {
+                            rep.fail(format!("the session handed up with the datagram {} -> {} sends from/to {:?} (expected {} -> {})", r, l, seen, l, r), "session-endpoints-wrong");
+                        }
+                    }
+                }
+            }
             Ev::Open { result, .. } => rep.count(format!("open.{}", result)),
             Ev::Sent { machine, app, act, idx, result, len } => {
                 rep.count(format!("sent.{}", result));
@@ -641,9 +681,15 @@ fn cfg_lines_of(spec: &str) -> (Vec<String>, u64) {
     match w.as_slice() {
         ["gen", _id, seed] => {
             let seed: u64 = seed.parse().unwrap_or(1);
-            (gen_scenario(seed).to_lines(), seed)
+            let mut l = gen_scenario(seed).to_lines();
+            l.push(format!("planner seed={}", seed));
+            (l, seed)
         }
-        _ => (it.filter(|l| l.starts_with("cfg ")).map(|l| l[4..].to_string()).collect(), 1),
+        _ => {
+            let l: Vec<String> = it.filter(|l| l.starts_with("cfg ")).map(|l| l[4..].to_string()).collect();
+            let seed = l.iter().find_map(|x| x.strip_prefix("planner seed=").and_then(|v| v.parse().ok())).unwrap_or(1);
+            (l, seed)
+        }
     }
 }
 
